@@ -1,6 +1,7 @@
 pub mod abi;
 pub mod gateway;
 pub mod gas;
+pub mod tm;
 
 use crate::rng::Rng;
 use crate::Sink;
@@ -11,6 +12,7 @@ pub fn generate(prop: &str, rng: &mut Rng, n: usize, sink: &mut Sink) {
         "C07" => abi::gen_c07(rng, n, sink),
         "C01" | "C02" | "C03" => gateway::gen(rng, n, sink, prop),
         "C15" => gas::gen(rng, n, sink),
+        "C09" | "C10" => tm::gen(rng, n, sink, prop),
         _ => panic!("no generator for {prop}"),
     }
 }
